@@ -79,6 +79,7 @@ PROPS = {
             part('gen', GEN, 1200, 30000, judge=True, props=['C16'], sub='gen', chunk=80),
             part('hooks', GEN, 800, 20000, judge=True, props=['C16'], sub='hooks', chunk=80),
             part('push', GEN, 300, 6000, judge=True, props=['C16'], sub='push', chunk=40),
+            part('hooks-sqlite', GEN, 40, 800, judge=True, props=['C16'], sub='hooks', chunk=10, store='sqlite', restart=True),
         ],
     },
     'C09': {
@@ -143,6 +144,7 @@ PROPS = {
             part('hooks', GEN, 250, 5000, monitors=[M.mon_c01], props=['C01'], chunk=60, sub='hooks'),
             part('matrix', ACTIONS, 500, 10000, monitors=[M.mon_c01], props=['C01'], sub='matrix'),
             part('duel', ACTIONS, 300, 6000, monitors=[M.mon_c01], props=['C01'], sub='duel'),
+            part('b2b', ACTIONS, 400, 8000, monitors=[M.mon_c01], props=['C01'], sub='b2b'),
         ],
     },
     'C02': {
@@ -157,6 +159,7 @@ PROPS = {
             part('error', ERROR, 500, 8000, monitors=[M.mon_c02], props=['C02'], chunk=60, second_error=True),
             part('gen', GEN, 200, 4000, monitors=[M.mon_c02], props=['C02'], chunk=60, sub='gen'),
             part('sub', SUB, 200, 4000, monitors=[M.mon_c02], props=['C02'], chunk=60),
+            part('b2b', ACTIONS, 400, 8000, monitors=[M.mon_c02], props=['C02'], sub='b2b'),
         ],
     },
     'C03': {
@@ -169,6 +172,7 @@ PROPS = {
             part('mixed', FLOW, 100, 1500, monitors=[M.mon_c03], props=['C03'], sub='mixed', variants=2, scheds=QUIESCENT),
             part('loop', FLOW, 60, 600, monitors=[M.mon_c03], props=['C03'], sub='loop', variants=2, scheds=QUIESCENT),
             part('error', ERROR, 300, 6000, monitors=[M.mon_c03], props=['C03'], chunk=60, second_error=True),
+            part('b2b', ACTIONS, 400, 8000, monitors=[M.mon_c03], props=['C03'], sub='b2b'),
         ],
     },
     'C08': {
@@ -183,6 +187,7 @@ PROPS = {
             part('gen', GEN, 200, 4000, monitors=[M.mon_c08], props=['C08'], chunk=60, sub='gen'),
             part('hooks', GEN, 200, 4000, monitors=[M.mon_c08], props=['C08'], chunk=60, sub='hooks'),
             part('sub', SUB, 200, 4000, monitors=[M.mon_c08], props=['C08'], chunk=60),
+            part('b2b', ACTIONS, 400, 8000, monitors=[M.mon_c08], props=['C08'], sub='b2b'),
         ],
     },
     'C11': {
